@@ -400,10 +400,12 @@ void TpmFailureMode(uint32_t        inRequestSize,    // IN: command buffer size
 	    marshalSize += MarshalUint32(capability, &buffer);
 	    // indicate the number of values that are being returned (0 or 1)
 	    marshalSize += MarshalUint32(count, &buffer);
+	    // an empty list has no entry			// libtpms added
+	    if(count == 0)
+		break;
 	    // indicate the property
 	    marshalSize += MarshalUint32(pt, &buffer);
 
-	    if(count > 0)
 		switch(pt)
 		    {
 		      case TPM_PT_MANUFACTURER:
